@@ -6191,6 +6191,9 @@ fintExecMainUnit(void)
 	fintCurrentFormat = emptyFormatSlot;
 
 	fintDEBUG(dbOut, "Starting with bp = %p, sp = %p\n", bp,  sp);
+#ifdef ALDOR_VERIF
+	{ extern void stoVerifArm(int); stoVerifArm(1); }
+#endif
 
 	unit = mainUnit;
 
